@@ -176,7 +176,7 @@ def check_sub_recipe_references_sum_to_whole(
             used_proportion: float = 0.0
             for reference in references:
                 if isinstance(reference.amount, Quantity):
-                    if total_quantity is None:
+                    if total_quantity is None or total_quantity.value == 0:
                         problem_encountered = True
                         yield Lint(
                             kind=LintKind.sub_recipe_quantity_unknown,
